@@ -89,6 +89,15 @@ func classifyPos(c *Ctx, p *tak.Position) {
 	if over, _ := p.GameOver(); over {
 		c.Count("pos.over")
 	}
+	ng := len(r.WG) + len(r.BG)
+	switch {
+	case ng > 2*p.Size():
+		c.Count("pos.groups>2size")
+	case len(r.WG) > p.Size() || len(r.BG) > p.Size():
+		c.Count("pos.onecolour.groups>size")
+	case ng > p.Size():
+		c.Count("pos.groups>size")
+	}
 }
 
 func genC01(c *Ctx) {
@@ -251,40 +260,281 @@ func roadBoard(r *RNG, size int) *tak.Position {
 	return p
 }
 
-func genC02(c *Ctx) {
-	n := c.Scale(24000, 2400000)
-	for k := 0; k < n; k++ {
-		var p *tak.Position
-		if c.R.Chance(1, 2) {
-			p = roadBoard(c.R, 3+c.R.Intn(6))
-			c.Count("src.roadboard")
+// emitC02 sends one position through the game-end ops: the real code against the model (`over`), against
+// the list-level rule book (`sover`), and the theorem hypothesis evaluated on the real data (`wfb`).
+func emitC02(c *Ctx, p *tak.Position, dump bool) {
+	tok := encPos(p)
+	out := c.Emit("over " + tok)
+	c.Emit("sover " + tok)
+	c.Count("result=" + c.Emit("result "+tok))
+	c.Emit("sresult " + tok)
+	f := strings.Fields(out)
+	if len(f) >= 3 {
+		c.Count("over=" + f[0] + "." + f[1] + "." + f[2])
+	}
+	r := p.VerifRaw()
+	if r.WS == 0 && r.WC > 0 || r.BS == 0 && r.BC > 0 {
+		c.Count("pos.stones0-caps-left")
+	}
+	if r.WS+r.WC == 0 || r.BS+r.BC == 0 {
+		c.Count("pos.reserve-empty")
+	}
+	full := uint64(1)<<uint(r.Size*r.Size) - 1
+	if r.Size == 8 {
+		full = ^uint64(0)
+	}
+	if r.White|r.Black == full {
+		c.Count("pos.full")
+	}
+	if r.Size == 8 && (r.White|r.Black)>>63 != 0 {
+		c.Count("pos.bit63")
+	}
+	if c.Emit("wfb "+dumpPos(p)) != "1" {
+		c.Count("wfb.false")
+	}
+	if dump {
+		c.Emit("dump " + tok)
+	}
+}
+
+// fromCells builds a position through FromSquares from one top piece per square (0 = empty).
+// mode 0: default piece counts; 1: stones = the larger stone count on the board, default capstones
+// (a side is out of stones; on sizes without default capstones it is out of pieces);
+// 2: as 1 but one capstone more than used, so that side has no stones but a capstone left.
+func fromCells(size int, cells []tak.Piece, ply int, bwt bool, mode int) *tak.Position {
+	board := make([][]tak.Square, size)
+	var stones, caps [2]int
+	for y := 0; y < size; y++ {
+		board[y] = make([]tak.Square, size)
+		for x := 0; x < size; x++ {
+			pc := cells[x+y*size]
+			if pc == 0 {
+				continue
+			}
+			board[y][x] = tak.Square{pc}
+			ci := 0
+			if pc.Color() == tak.Black {
+				ci = 1
+			}
+			if pc.Kind() == tak.Capstone {
+				caps[ci]++
+			} else {
+				stones[ci]++
+			}
+		}
+	}
+	cfg := tak.Config{Size: size, BlackWinsTies: bwt}
+	ms, mc := stones[0], caps[0]
+	if stones[1] > ms {
+		ms = stones[1]
+	}
+	if caps[1] > mc {
+		mc = caps[1]
+	}
+	if ms > defaultPieces[size] || (mode > 0 && ms > 0) {
+		cfg.Pieces = ms
+	}
+	if mc > defaultCaps[size] {
+		cfg.Capstones = mc
+	}
+	if mode == 2 {
+		cfg.Capstones = mc + 1
+	}
+	p, err := tak.FromSquares(cfg, board, ply)
+	if err != nil {
+		panic(err)
+	}
+	return p
+}
+
+// exhaustive3 walks all 3^9 assignments of {empty, white flat, black flat} to a 3x3 board (this shard's
+// share).  Quick: one random (parity, tie-break, reserve mode) each; thorough: both parities x 3 reserve modes.
+func exhaustive3(c *Ctx) {
+	wf, bf := tak.MakePiece(tak.White, tak.Flat), tak.MakePiece(tak.Black, tak.Flat)
+	for idx := 0; idx < 19683; idx++ {
+		if idx%c.NShard != c.Shard {
+			continue
+		}
+		cells := make([]tak.Piece, 9)
+		for i, v := 0, idx; i < 9; i, v = i+1, v/3 {
+			switch v % 3 {
+			case 1:
+				cells[i] = wf
+			case 2:
+				cells[i] = bf
+			}
+		}
+		if c.Thorough() {
+			for par := 0; par < 2; par++ {
+				for mode := 0; mode < 3; mode++ {
+					emitC02(c, fromCells(3, cells, 2+par, c.R.Chance(1, 2), mode), false)
+					c.Count("src.exhaustive3")
+				}
+			}
 		} else {
-			p = randomPosition(c.R)
-			c.Count("src.random")
-		}
-		classifyPos(c, p)
-		tok := encPos(p)
-		out := c.Emit("over " + tok)
-		c.Emit("sover " + tok)
-		f := strings.Fields(out)
-		if len(f) >= 3 {
-			c.Count("over=" + f[0] + "." + f[1] + "." + f[2])
-		}
-		if c.R.Chance(1, 4) {
-			c.Emit("dump " + tok)
+			emitC02(c, fromCells(3, cells, 2+c.R.Intn(2), c.R.Chance(1, 2), c.R.Intn(3)), false)
+			c.Count("src.exhaustive3")
 		}
 	}
 }
 
+// exhaustive4 (thorough) walks all 2^16 subsets of a 4x4 board as white flats; the rest is empty, or
+// black flats, or a random mix; each subset also with one of its squares turned into a white wall and
+// into a white capstone; both parities.
+func exhaustive4(c *Ctx) {
+	wf, bf := tak.MakePiece(tak.White, tak.Flat), tak.MakePiece(tak.Black, tak.Flat)
+	for m := 0; m < 65536; m++ {
+		if m%c.NShard != c.Shard {
+			continue
+		}
+		cells := make([]tak.Piece, 16)
+		var set []int
+		fill := c.R.Intn(3)
+		for i := 0; i < 16; i++ {
+			if m>>uint(i)&1 == 1 {
+				cells[i] = wf
+				set = append(set, i)
+			} else if fill == 1 || fill == 2 && c.R.Chance(1, 2) {
+				cells[i] = bf
+			}
+		}
+		for par := 0; par < 2; par++ {
+			emitC02(c, fromCells(4, cells, 2+par, c.R.Chance(1, 2), c.R.Intn(3)), false)
+			c.Count("src.exhaustive4")
+		}
+		if len(set) > 0 {
+			i := set[c.R.Intn(len(set))]
+			for _, k := range []tak.Kind{tak.Standing, tak.Capstone} {
+				cells[i] = tak.MakePiece(tak.White, k)
+				emitC02(c, fromCells(4, cells, 2+c.R.Intn(2), c.R.Chance(1, 2), c.R.Intn(3)), false)
+				c.Count("src.exhaustive4.subst")
+			}
+			cells[i] = wf
+		}
+	}
+}
+
+// flatBoard: a random board of single pieces on any size, often completely full (flat-count endings and
+// the tie-break flag: equal counts are forced half of the time on full boards of even size), with the
+// reserve modes of fromCells.
+func flatBoard(r *RNG, size int) *tak.Position {
+	n := size * size
+	cells := make([]tak.Piece, n)
+	density := 100
+	if r.Chance(1, 3) {
+		density = 60 + r.Intn(40)
+	}
+	wallPct := r.Intn(30)
+	capLeft := [2]int{1, 1}
+	for i := 0; i < n; i++ {
+		if r.Intn(100) >= density {
+			continue
+		}
+		ci := r.Intn(2)
+		col := []tak.Color{tak.White, tak.Black}[ci]
+		k := tak.Flat
+		if x := r.Intn(100); x < wallPct {
+			k = tak.Standing
+		} else if x < wallPct+3 && capLeft[ci] > 0 {
+			k = tak.Capstone
+			capLeft[ci]--
+		}
+		cells[i] = tak.MakePiece(col, k)
+	}
+	if r.Chance(1, 2) {
+		// balance the flat counts: flip flats of the leading colour
+		for tries := 0; tries < n; tries++ {
+			w, b := 0, 0
+			for _, pc := range cells {
+				if pc != 0 && pc.Kind() == tak.Flat {
+					if pc.Color() == tak.White {
+						w++
+					} else {
+						b++
+					}
+				}
+			}
+			if w == b || w+b < 2 {
+				break
+			}
+			lead := tak.White
+			if b > w {
+				lead = tak.Black
+			}
+			if (w+b)%2 == 1 && (w-b == 1 || b-w == 1) {
+				break
+			}
+			for i, pc := range cells {
+				if pc != 0 && pc.Kind() == tak.Flat && pc.Color() == lead {
+					cells[i] = tak.MakePiece(lead.Flip(), tak.Flat)
+					break
+				}
+			}
+		}
+	}
+	return fromCells(size, cells, 2+r.Intn(80), r.Chance(1, 2), r.Intn(3))
+}
+
+// wrapReserves takes a sampled position and replaces one side's (or both sides') reserve counters by a
+// pair stones, capstones > 0 with stones+capstones = 256: nothing in reserve is exhausted, but the byte sum
+// `stones+caps` is 0 (defect C02-reserve-wrap: GameOver tested that sum).
+func wrapReserves(r *RNG, p *tak.Position) *tak.Position {
+	raw := p.VerifRaw()
+	side := r.Intn(3)
+	if side != 1 {
+		raw.WS = byte(1 + r.Intn(255))
+		raw.WC = byte(256 - int(raw.WS))
+	}
+	if side != 0 {
+		raw.BS = byte(1 + r.Intn(255))
+		raw.BC = byte(256 - int(raw.BS))
+	}
+	return tak.VerifFromRaw(raw)
+}
+
+func genC02(c *Ctx) {
+	exhaustive3(c)
+	if c.Thorough() {
+		exhaustive4(c)
+	}
+	n := c.Scale(20000, 2400000)
+	for k := 0; k < n; k++ {
+		var p *tak.Position
+		switch x := c.R.Intn(10); {
+		case x < 3:
+			p = roadBoard(c.R, 3+c.R.Intn(6))
+			c.Count("src.roadboard")
+		case x < 5:
+			p = flatBoard(c.R, 3+c.R.Intn(6))
+			c.Count("src.flatboard")
+		case x < 7:
+			p = groupsBoard(c.R, 3+c.R.Intn(6))
+			c.Count("src.groupsboard")
+		default:
+			p = randomPosition(c.R)
+			c.Count("src.random")
+		}
+		if c.R.Chance(1, 40) {
+			p = wrapReserves(c.R, p)
+			c.Count("src.+wrapped-reserves")
+		}
+		classifyPos(c, p)
+		emitC02(c, p, c.R.Chance(1, 4))
+	}
+}
+
 func genC03(c *Ctx) {
-	n := c.Scale(6000, 600000)
+	n := c.Scale(6000, 200000)
 	for k := 0; k < n; k++ {
 		p := randomPosition(c.R)
 		classifyPos(c, p)
 		tok := encPos(p)
 		out := c.Emit("allmoves " + tok)
-		c.Emit("slegal " + tok)
-		c.Count("nmoves~" + strconv.Itoa(len(strings.Fields(out))/32*32))
+		// the rule-book enumeration is the expensive side (size^2 x 1023 shapes through Spec.step): one position in three
+		if k%3 == 0 {
+			c.Emit("slegal " + tok)
+		}
+		c.Count("nmoves>=" + bucket2(len(strings.Fields(out))))
 	}
 }
 
